@@ -92,7 +92,8 @@ def compare_tables(obs, model, cols=None, textcols=None):
             if c in ("tr", "tp", "ener"):
                 s = sc * 1e3
             elif c == "eff":
-                s = 1.0
+                s = 1.0e3          # per cent, compared to 1e-9 absolute: when Loss = Power up to rounding the cell is 100*|Power - Loss|/Power,
+                                   # pure cancellation noise of the table interpolation (1e-14 relative on each side)
             else:
                 s = sc
             if not close(a, b, scale=s * 1e-3):
